@@ -62,9 +62,19 @@ def gen_config(rng, prop):
         p_reset = 0.8 if prop == "C10" else 0.3
         for j in range(2):
             if rng.random() < p_reset:
-                resets.append({"attr": f"r{j}", "default": rng.choice([0, False, None, 1.5, "idle", 7]), "inherited": rng.random() < 0.3})
+                r = {"attr": f"r{j}", "default": rng.choice([0, False, None, 1.5, "idle", 7]), "inherited": rng.random() < 0.3, "override": None}
+                if r["inherited"] and rng.random() < 0.4:
+                    # the subclass redeclares the inherited marker with another default: the component's own declaration counts
+                    r["override"] = "marker"
+                    r["base_default"] = rng.choice([-1, True, "base", 9.5])
+                resets.append(r)
         for j in range(1 if rng.random() < 0.6 else 0):
-            plain.append({"attr": f"p{j}", "default": rng.choice([0, "x", False])})
+            a = {"attr": f"p{j}", "default": rng.choice([0, "x", False]), "shadows_marker": False}
+            if rng.random() < 0.25:
+                # an ordinary attribute that replaces a will_reset_to marker of the base class: never touched by the reset
+                a["shadows_marker"] = True
+                a["base_default"] = rng.choice([-1, "base", 3.5])
+            plain.append(a)
         fbs = []
         p_fb = 0.8 if prop == "C11" else 0.35
         for j in range(2):
@@ -104,13 +114,18 @@ def gen_config(rng, prop):
 def _gen_fb(rng, j, owner="comp"):
     hint = rng.choice(["int", "float", "bool", "str", "floats", "ints", "strs", "bools", None, None])
     name = rng.choice([f"get_v{j}", f"v{j}", f"get_state{j}", f"is_ok{j}"])
-    fb = {"name": name, "key": (rng.choice([f"k{j}", f"sub/key{j}", "Name With Space" + str(j)]) if rng.random() < 0.3 else None), "hint": hint}
+    fb = {"name": name, "key": (rng.choice([f"k{j}", f"sub/key{j}", "Name With Space" + str(j)]) if rng.random() < 0.3 else None), "hint": hint,
+          "inplace": False, "constant": rng.random() < 0.25}
     if hint is None:
         t, vals = rng.choice(UNTYPED_POOLS)
         fb["nt_type"], fb["values"] = t, list(vals)
     else:
         fb["nt_type"], fb["values"] = HINTS[hint][1], list(HINTS[hint][2])
     rng.shuffle(fb["values"])
+    if fb["constant"]:
+        fb["values"] = fb["values"][:1]
+    if isinstance(fb["values"][0], list) and rng.random() < 0.5:
+        fb["inplace"] = True       # the getter returns the same list object every time, updated in place
     return fb
 
 
@@ -252,6 +267,11 @@ def generate(seed, prop, tier, index=0):
         add("wait", rng.randint(1, cap), ["ds", 1, rng.choice(["teleop", "auto"]), int(rng.random() < 0.5)])
 
     # ---- property-specific faults
+    if prop == "C06" and cfg["fms"] and rng.random() < 0.4:
+        # a component hook that raises during a match must not cost the other components their hooks
+        for _ in range(rng.choice([1, 1, 2])):
+            if sites["lifecycle"]:
+                add(rng.choice(sites["lifecycle"] + sites["init"]), rng.choice([1, 1, 2, 3, "*"]), ["raise"])
     if prop == "C07":
         fsites = sites["lifecycle"] + sites["execute"] + sites["init"] + sites["periodic"] + sites["fb"] + sites["mode"]
         nf = rng.choice([1, 1, 1, 2, 3])
@@ -273,10 +293,28 @@ def generate(seed, prop, tier, index=0):
                 c, a, d = rng.choice(plain)
                 add(rng.choice(asites), rng.randint(1, 12), ["assign", c, a, rng.choice([5, "set", True])])
         if cfg["fms"] or rng.random() < 0.3:
+            itsites = [s for s in sites["mode"] if s.endswith("on_iteration")]
             for _ in range(rng.choice([0, 1, 2])):
-                s = rng.choice(sites["execute"] + sites["periodic"] + sites["fb"] + ["robot.robotPeriodic"])
-                add(s, rng.choice([1, 2, rng.randint(1, 10), "*"]), ["raise"])
+                s = rng.choice(sites["execute"] + sites["periodic"] + sites["fb"] + ["robot.robotPeriodic"] + itsites + itsites)
+                v = rng.choice([1, 2, rng.randint(1, 10), "*"])
+                if targets and rng.random() < 0.5 and ".fb." not in s:
+                    # the callback assigns a marked attribute and then raises
+                    c, a, d = rng.choice(targets)
+                    add(s, v, ["assign", c, a, rng.choice([1, True, "go", 2.5])], ["raise"])
+                else:
+                    add(s, v, ["raise"])
     if prop == "C11":
+        allfb = [("robot", fb) for fb in cfg["robot_feedbacks"]] + [(c["name"], fb) for c in cfg["components"] for fb in c["feedbacks"]]
+        for _ in range(rng.choice([0, 0, 1, 2, 3])):
+            if allfb:
+                owner, fb = rng.choice(allfb)
+                key = ("/robot/" if owner == "robot" else f"/components/{owner}/") + fb_key(fb)
+                pool = HINTS[fb["hint"]][2] if fb["hint"] is not None else [v for t, vs in UNTYPED_POOLS if t == fb["nt_type"] for v in vs]
+                other = [v for v in pool if v != fb["values"][0]] or pool
+                v = rng.choice(other)
+                if fb["hint"] is None and type(v) is int:
+                    v = float(v)
+                add("wait", rng.randint(1, cap), ["clobber", key, v])
         if sites["fb"] and (cfg["fms"] or rng.random() < 0.2):
             for _ in range(rng.choice([0, 1, 2])):
                 add(rng.choice(sites["fb"]), rng.choice([1, 2, rng.randint(1, 10), "*"]), ["raise"])
@@ -296,11 +334,14 @@ def build_sources(cfg):
     for c in cfg["components"]:
         nm = c["name"]
         inh = [r for r in c["resets"] if r["inherited"]]
-        own = [r for r in c["resets"] if not r["inherited"]]
-        if inh:
+        own = [r for r in c["resets"] if not r["inherited"] or r.get("override") == "marker"]
+        shadow = [a for a in c["plain_attrs"] if a.get("shadows_marker")]
+        if inh or shadow:
             L.append(f"class {nm.upper()}Base:")
             for r in inh:
-                L.append(f"    {r['attr']} = will_reset_to({_lit(r['default'])})")
+                L.append(f"    {r['attr']} = will_reset_to({_lit(r.get('base_default') if r.get('override') == 'marker' else r['default'])})")
+            for a in shadow:
+                L.append(f"    {a['attr']} = will_reset_to({_lit(a['base_default'])})")
             L.append("")
             L.append(f"class {nm.upper()}({nm.upper()}Base):")
         else:
@@ -379,6 +420,20 @@ def _fb_source(owner, fb):
     return out
 
 
+def normalise(cfg):
+    """Make a (possibly shrunk) configuration self-consistent, so that every plan is executable."""
+    cfg = dict(cfg)
+    comps = [dict(c) for c in cfg["components"]]
+    names = {c["name"] for c in comps}
+    for c in comps:
+        if not cfg.get("split_robot"):
+            c["in_base_robot"] = False
+        if c.get("inject_comp") not in names or c.get("inject_comp") == c["name"]:
+            c["inject_comp"] = None
+    cfg["components"] = comps
+    return cfg
+
+
 class SimFault(Exception):
     def __init__(self, site, visit):
         super().__init__(f"injected fault at {site}#{visit}")
@@ -399,6 +454,8 @@ class _Sim:
             for fb in fbs:
                 self.fbvals[f"{owner}.fb.{fb['name']}"] = fb
         self.keys = sorted((c["name"], a["attr"]) for c in cfg["components"] for a in (c["resets"] + c["plain_attrs"]))
+        self.boxes = {}
+        self.clobber_pubs = {}
         self.snap_on = False
         self.mode_sub = None
         self.autosel_pub = None
@@ -412,7 +469,13 @@ class _Sim:
         self.faults[k] = self.faults.get(k, 0) + 1
 
     def fbval(self, site, n):
-        return fb_value(self.fbvals[site], n)
+        fb = self.fbvals[site]
+        v = fb_value(fb, n)
+        if fb.get("inplace"):
+            box = self.boxes.setdefault(site, [])
+            box[:] = v          # same list object every iteration, contents replaced in place
+            return box
+        return v
 
     def snapshot(self):
         if not self.snap_on:
@@ -467,6 +530,15 @@ class _Sim:
             elif k == "autosel":
                 self.autosel_pub.set(a[1])
                 self.fault("dashboard_auto_selector")
+            elif k == "clobber" and at_wait:
+                # another NetworkTables client overwrites a feedback entry between two iterations
+                sub = self.fb_subs.get(a[1])
+                if sub is not None and sub.get().isValid():
+                    pub = self.clobber_pubs.get(a[1])
+                    if pub is None:
+                        pub = self.clobber_pubs[a[1]] = self.mk_pub(a[1])
+                    pub.set(a[2])
+                    self.fault("client_overwrites_feedback_entry")
             elif k == "end":
                 if self.robot is not None and hasattr(self.robot, "_automodes"):
                     self.robot.endCompetition()
@@ -617,7 +689,7 @@ def execute(plan, trace=False):
     wpilib, hal, hs, ntcore = world.wpilib, world.hal, world.hs, world.ntcore
     DS = wpilib.simulation.DriverStationSim
 
-    cfg = plan["config"]
+    cfg = normalise(plan["config"])
     prop = plan["property"]
     owned = OWNED[prop]
     ops = plan["ops"]
@@ -666,6 +738,9 @@ def execute(plan, trace=False):
     DS.setTest(False)
     DS.setFmsAttached(bool(cfg["fms"]))
     DS.notifyNewData()
+    TOPIC = {"int": ntcore.IntegerTopic, "double": ntcore.DoubleTopic, "boolean": ntcore.BooleanTopic, "string": ntcore.StringTopic,
+             "int[]": ntcore.IntegerArrayTopic, "double[]": ntcore.DoubleArrayTopic, "boolean[]": ntcore.BooleanArrayTopic, "string[]": ntcore.StringArrayTopic}
+    sim.mk_pub = lambda key: TOPIC[fb_types[key]](nt.getTopic(key)).publish()
 
     import types
     mod = types.ModuleType("verif_generated_robot")
@@ -693,9 +768,9 @@ def execute(plan, trace=False):
                 if kind in owned:
                     raise Violation(prop, f"model.{kind}", msg, sig=f"{prop}:model.{kind}", at=at)
                 foreign = kind
-            if foreign is None:
+            if True:
                 # topic types of the feedback entries
-                if prop == "C11":
+                if prop == "C11" and foreign is None:
                     for key, want in sorted(fb_types.items()):
                         t = nt.getTopic(key)
                         if t.exists() and t.getTypeString() != want:
